@@ -73,8 +73,13 @@ func genC10(r *Rng, e *Emitter, n int) {
 	// the six ordinates have mixed signs or share one binade, and scaled by powers of two
 	for i := 0; i < n/4; i++ {
 		bits := 3 + r.Intn(50)
+		if r.chance(1, 3) {
+			// sizes at which products of differences start to exceed 2^53 (and the 32-bit boundary)
+			bits = []int{23, 24, 25, 26, 26, 27, 27, 28, 30, 31, 32}[r.Intn(11)]
+		}
 		ux, uy, vx, vy := r.unimodular(bits)
 		k := int64(r.Intn(5) - 2) // c = b + v + k*u keeps the determinant
+		sc1 := false
 		ox, oy := int64(0), int64(0)
 		switch r.Intn(4) {
 		case 0: // origin inside the triple's extent: mixed signs
@@ -101,7 +106,21 @@ func genC10(r *Rng, e *Emitter, n int) {
 			if r.chance(1, 2) {
 				bb = 50 + r.Intn(5) // ordinates that use all 53 bits
 			}
+			// or: differences just under 2^27 or 2^32 with every ordinate under 2^26 or 2^31 —
+			// where products of differences first exceed 2^53, or 32-bit arithmetic would wrap
+			edge := 0
+			if r.chance(1, 2) {
+				edge = []int{27, 27, 32}[r.Intn(3)]
+				bb = edge
+			}
 			lim := int64(1) << uint(maxInt(bb-7, 4))
+			// with a small last quotient the neighbour vector z is a sizeable fraction of w: then c is
+			// next to the line but far from both ends, and no difference of the triple is small
+			smallLast := int64(0)
+			if edge > 0 && r.chance(1, 2) {
+				smallLast = int64(2 + r.Intn(5))
+				lim = (int64(1) << uint(edge)) / (smallLast + 1)
+			}
 			for {
 				q := int64(1 + r.Intn(2))
 				nx, ny := q*wx+zx, q*wy+zy
@@ -113,6 +132,22 @@ func genC10(r *Rng, e *Emitter, n int) {
 			// last step with a large quotient: the previous vector z is then a short lattice vector
 			// almost parallel to w (w x z = +-1)
 			ql := int64(8 + r.Intn(120))
+			// a --- b is g primitive steps long, so that c can sit next to the line far from both ends
+			// (the determinant is then +-g*m: still tiny, but no difference of the triple is small)
+			g := int64(1)
+			if r.chance(1, 2) {
+				g = int64(2 + r.Intn(7))
+			}
+			if smallLast > 0 {
+				ql = smallLast
+				g = 1
+			} else if edge > 0 {
+				// the larger component after the shear below is wx+wy: bring g times it to just under 2^edge
+				target := ((int64(1) << uint(edge)) - 2 - r.Int63n(int64(1)<<uint(edge-3))) / g
+				if q := (target - (zx + zy)) / (wx + wy); q >= 2 {
+					ql = q
+				}
+			}
 			wx, wy, zx, zy = ql*wx+zx, ql*wy+zy, wx, wy
 			// shear (x, y) -> (x, x + y), then random reflections
 			wy, zy = wx+wy, zx+zy
@@ -125,11 +160,14 @@ func genC10(r *Rng, e *Emitter, n int) {
 			if r.chance(1, 2) {
 				wx, wy, zx, zy = wy, wx, zy, zx
 			}
-			ax, ay = -(wx / 2), -(wy / 2)
+			ax, ay = -(g * wx / 2), -(g * wy / 2)
 			if r.chance(1, 2) {
 				ax, ay = ax-int64(r.Intn(1000)), ay+int64(r.Intn(1000))
 			}
-			bx, by = ax+wx, ay+wy
+			if edge > 0 {
+				sc1 = true
+			}
+			bx, by = ax+g*wx, ay+g*wy
 			m := int64(1 + r.Intn(3))
 			if r.chance(1, 2) {
 				m = -m
@@ -138,8 +176,15 @@ func genC10(r *Rng, e *Emitter, n int) {
 			if r.chance(1, 4) {
 				cx, cy = bx+m*zx, by+m*zy // next to b
 			}
+			if g > 1 {
+				j := int64(1 + r.Intn(int(g-1)))
+				cx, cy = ax+j*wx+m*zx, ay+j*wy+m*zy // next to an inner lattice point of the segment
+			}
 		}
 		sc := math.Ldexp(1, r.Intn(41)-20)
+		if sc1 || r.chance(1, 3) {
+			sc = 1 // plain integer data
+		}
 		if abs64(ax)|abs64(ay)|abs64(bx)|abs64(by)|abs64(cx)|abs64(cy) >= 1<<53 {
 			continue
 		}
